@@ -77,6 +77,12 @@ type BinEntry struct {
 	Err          error
 	ObjectParser Parser
 	Done         bool
+	moreBins     bool // the value is split and further entries of the same key follow
+}
+
+// LastBin reports whether this entry carries the last (or only) part of its value
+func (be *BinEntry) LastBin() bool {
+	return !be.moreBins
 }
 
 func (be *BinEntry) CanRestore() bool {
@@ -119,7 +125,9 @@ func (l *Loader) Next() (entry *BinEntry, err error) {
 			rtype := l.ReadByteP()
 			t = rtype
 		} else {
+			// next part of a split value : the expiry belongs to the key, it is applied with the last part
 			t = l.lastEntry.Type
+			entry.ExpireAt = l.lastEntry.ExpireAt
 		}
 		entry.Type = t
 		switch t {
@@ -173,6 +181,7 @@ func (l *Loader) Next() (entry *BinEntry, err error) {
 			entry.ObjectParser = parser
 			entry.DB = int(l.db)
 			entry.Key = parser.Key()
+			entry.moreBins = l.totalEntries-l.readEntries != 0
 			l.lastEntry = entry
 			return entry, nil
 		}
